@@ -171,6 +171,10 @@ def c09(c):
         # two shards: ordered results are merged across the tables of the shards
         _fam(name='stream-order-window-2shards', series=S, times=T, maxrows=1, maxtotal=3, maxops=3,
              sims=25 if c.quick else 300, simops=12, queries=c09_queries(), index='inverted', shards=2, sim=dict(maxrows=3, maxtotal=9)),
+        # index rule IDs are CRC-32 values of group and rule name, their bytes name the fields inside the inverted index:
+        # groups whose rule ID begins with the byte '-' / '+' (one group in 128 has such a rule)
+        _fam(name='stream-order-window-rule-id-sign', series=S, times=T, maxrows=1, maxtotal=3, maxops=3,
+             sims=8 if c.quick else 60, simops=10, queries=c09_queries(), index='inverted', rule_id_sign='a', sim=dict(maxrows=3, maxtotal=9)),
         # one element per batch, every batch flushed on its own: file parts whose time ranges are pairwise disjoint or
         # identical (the scanner walks time-disjoint groups of parts one after the other); every path of the graph
         _fam(name='stream-order-disjoint-parts', series=[1, 2], times=T, maxrows=1, maxtotal=3, maxops=7, graphops=7,
@@ -206,6 +210,8 @@ def c15(c):
              sim=dict(times=[1, 2, 3, 4], maxrows=2, maxtotal=6)),
         _fam(name='stream-order-inverted', series=S, times=T, maxrows=1, maxtotal=3, maxops=3,
              sims=15 if c.quick else 200, simops=12, queries=c09_queries(), index='inverted', sim=dict(maxrows=3, maxtotal=9)),
+        _fam(name='stream-order-rule-id-sign', series=S, times=T, maxrows=1, maxtotal=3, maxops=3,
+             sims=6 if c.quick else 60, simops=10, queries=c09_queries(), index='inverted', rule_id_sign='b', sim=dict(maxrows=3, maxtotal=9)),
         _fam(name='stream-criteria-none', series=S, times=T, maxrows=1, maxtotal=3, maxops=3,
              sims=12 if c.quick else 150, simops=11, queries=crit_q, index='none', sim=dict(maxrows=3, maxtotal=8)),
         _fam(name='stream-criteria-skipping', series=S, times=T, maxrows=1, maxtotal=3, maxops=3,
